@@ -1084,6 +1084,14 @@ def run(ctx):
                 if ncorpus % 2 == 0 and 'junk' not in kinds:
                     spec['makers'] = ['jwst'] * len(kinds)
                 do_scenario(ctx, scene, scene_seed, spec, lines, pending, 'corpus')
+    # fields that do not overlap at all (every pairwise overlap is 0, the arg-max of the overlap matrix is on the
+    # diagonal): the first group is the reference all the same, and nothing else is REFERENCE
+    for origins in ([(0, 0), (1100, 0), (0, 1100)], [(0, 0), (1100, 0), (0, 1100), (1100, 1100)]):
+        for expand, enforce in ((True, False), (True, True), (False, False)):
+            spec = {'images': [(o, 'good', None) for o in origins],
+                    'errs': [(0.8, -0.6), (-1.1, 0.4), (0.3, 1.2), (-0.5, -0.7)][:len(origins)], 'ref': None,
+                    'expand': expand, 'enforce': enforce, 'minobj': None, 'fitgeom': 'rscale', 'match': True}
+            do_scenario(ctx, scene, scene_seed, spec, lines, pending, 'corpus:disjoint-fields')
     # exactly at the threshold: nmatches == minobj must succeed, nmatches == minobj - 1 must fail
     centre = alignsim.ref_sources(scene, 'centre')
     for fitgeom, nsrc in (('shift', 1), ('rscale', 2), ('rscale', 1), ('general', 3), ('general', 2),
